@@ -65,7 +65,11 @@ def pred_game(rng, kind=None, stratum=None, n=None, maxsize=8):
         beta = rng.choice([core.DEFAULTS["beta"], 1.0, 0.5])
         sg = rng.choice([beta * 2.0, 1.0, 8.0])
         pool = [[(-1.0, sg)], [(-2.0, sg)], [(-1.5, sg), (0.5, 0.0)], [(-0.5, sg), (-1.5, 0.0)], [(1.0, sg)], [(0.0, sg)], [(-1.0, sg * 0.5)]]
-        teams = [pool[0], pool[1]] + [rng.choice(pool[2:]) for _ in range(n - 2)]
+        if rng.random() < 0.5:
+            # whole-number ratings one and two points apart with one sigma: pairwise gaps of exactly -1.0 and -2.0 at equal variance
+            b0 = float(rng.choice([25, 24, 3, 0]))
+            pool = [[(b0 - 1.0, sg)], [(b0 - 2.0, sg)], [(b0, sg)], [(b0, sg)], [(b0 + 1.0, sg)], [(b0 - 3.0, sg)], [(b0 - 1.0, sg * 0.5)]]
+        teams = [pool[0], pool[1], pool[rng.choice([2, 5])]] + [rng.choice(pool[2:]) for _ in range(n - 3)]
         teams = [list(t) for t in teams]
         rng.shuffle(teams)
     elif stratum == "crushing":
